@@ -98,6 +98,7 @@ func checkC17(r *Result) {
 	r.rule("COMMIT-INJECTED", "ProcessProposal validates and extracts from the injected extended commit, and rejects on validation failure")
 	r.rule("LOCKSTEP", "an extractor appends to all of its parallel result lists in the same basic block")
 	r.rule("REGISTER-ONCE", "an (operator, EVM address) pair is emitted only under 'no address registered' and the address comes from the vote's own signatures")
+	r.rule("FRESH-DECODE", "inside a loop over votes the JSON decode target is a value declared in that iteration")
 	r.rule("VOTEEXT-FAIL", "every panic-like construct reachable from the ABCI++ handlers is structurally guarded or triaged")
 
 	pre := P.Func("(*app.ProposalHandler).PreBlocker")
@@ -373,6 +374,48 @@ func checkC17(r *Result) {
 			r.bad("VOTEEXT-FAIL", o.Key(), where, "panic-like construct reachable from an ABCI++ handler that is neither structurally guarded nor triaged")
 		}
 	}
+	// ---- FRESH-DECODE: a vote's extension is decoded into a value that is zero at the start of each iteration;
+	// encoding/json leaves fields that are absent from the input untouched, so a reused target carries the
+	// previous validator's signatures over to the next vote
+	{
+		nDec := 0
+		for _, fn := range P.RepoFuncs {
+			if fn.Pkg == nil || !strings.HasSuffix(fn.Pkg.Pkg.Path(), "/app") {
+				continue
+			}
+			for _, b := range fn.Blocks {
+				for _, in := range b.Instrs {
+					c, ok := in.(*ssa.Call)
+					if !ok {
+						continue
+					}
+					name := CalleeName(c.Common())
+					if name != "encoding/json.Unmarshal" || len(c.Call.Args) != 2 || !inLoop(fn, b) {
+						continue
+					}
+					nDec++
+					target := stripIface(c.Call.Args[1])
+					al, isAlloc := target.(*ssa.Alloc)
+					fresh := false
+					why := "decode target is not a local variable"
+					if isAlloc {
+						// the variable is (re)zeroed when its Alloc executes: it must execute in the same iteration
+						var h *ssa.BasicBlock
+						for _, hh := range loopHeaders(fn) {
+							if hh.Dominates(b) && (h == nil || h.Dominates(hh)) {
+								h = hh
+							}
+						}
+						fresh = h != nil && h.Dominates(al.Block()) && inLoop(fn, al.Block())
+						why = fmt.Sprintf("target %s declared inside the loop: %v", al.Comment, fresh)
+					}
+					r.check(fresh, "FRESH-DECODE", FuncName(TopFunc(fn))+" # each vote extension is decoded into a fresh value", P.Pos(c.Pos()), why)
+				}
+			}
+		}
+		r.check(nDec >= 3, "FRESH-DECODE", "decode sites inside loops over votes", "-", fmt.Sprint(nDec))
+	}
+	r.minCount("FRESH-DECODE", 4)
 	r.minCount("PROC-COVERS-PRE", 8)
 	r.minCount("LOCKSTEP", 3)
 	r.minCount("COMMIT-INJECTED", 5)
